@@ -67,3 +67,11 @@ CLAIMED["C13"] = dict(category=_MC,
          "class with atoms over unknown principal/resource/context-attribute/entity-attribute values in 6 unknown modes, with the complete completion set of each mode; the real "
          "is_authorized_partial, reauthorize_with_bindings and is_authorized are run and TLC re-derives the reference answer for every completion.",
     note="bounded by the atom pools, 6 modes and the completion domains of MC_Partial.tla; partial entity stores and an unknown action are not generated. Residual shapes are never compared.")
+ENGINES[0]["serves_properties"].append("C14")
+CLAIMED["C14"] = dict(category=_MC,
+    text="TPE is specified by its soundness relation over consistent completions (Trace_Tpe.tla over TypedWorld.tla): definite decision and true/false/error classes hold on every "
+         "completion; each residual, evaluated by the reference semantics, has the outcome of its original on every completion; the views policies / policy_set / get_policy / "
+         "residual_policies present the same residuals; reauthorize equals the reference response. TLC enumerates 178 strictly valid policy sets x 4 base environments x every "
+         "erasure of <=2 unknown components with the complete completion sets (26196 cases); the real tpe()/reauthorize are run on each.",
+    note="completions range over the 1920-environment model universe; permission queries (query_resource/principal/action) are not driven yet. A genuine defect found by this check "
+         "(policy_set returned originals) was repaired in /repo commit 5ae75d7.")
